@@ -9,6 +9,7 @@ used to chain a child's tables to its parent's is closed over the ancestors.
 import ast
 
 from ..model import call_name, own_nodes, unparse
+from ..model import returns_text
 from ..pathcond import path_info
 from ._serial import BASE, DEC, ENC, ENCBASE, PYTYPES, SER, VAL, is_validation_error
 
@@ -292,15 +293,23 @@ def run(pm, ctx):
                   msg='%s no longer encodes its parts through self.encode_sub' % f.short,
                   key='C13-R3|%s|recursion' % f.qualname)
     base_encode = pm.func(ENCBASE + '.encode')
-    ctx.check('C13-R3', len(base_encode.node.body) == 1 and unparse(base_encode.node.body[0]) ==
-              'return self.encode_sub(validator, value)', 'encode() enters through encode_sub',
+    ctx.check('C13-R3', returns_text(base_encode.node) ==
+              'self.encode_sub(validator, value)', 'encode() enters through encode_sub',
               base_encode.loc, msg='encode() bypasses encode_sub',
               key='C13-R3|%s' % base_encode.qualname)
     # the override
     ov = pm.func(ENC + '.encode_sub')
-    first = ov.node.body[0] if ov.node.body else None
-    if isinstance(first, ast.Expr) and isinstance(first.value, ast.Constant):
-        first = ov.node.body[1]
+    # the first statement that does anything: docstrings and assignments of constants to
+    # locals are skipped
+    first = None
+    for st_ in ov.node.body:
+        if isinstance(st_, ast.Expr) and isinstance(st_.value, ast.Constant):
+            continue
+        if isinstance(st_, ast.Assign) and isinstance(st_.value, ast.Constant) and \
+                all(isinstance(t_, ast.Name) for t_ in st_.targets):
+            continue
+        first = st_
+        break
     good = isinstance(first, ast.If) and {unparse(v) for v in (
         first.test.values if isinstance(first.test, ast.BoolOp) and
         isinstance(first.test.op, ast.And) else [first.test])} == {
